@@ -17,13 +17,20 @@ pub struct Slot<'a, T> {
     /// index in the schedule at which the operation was first polled / completed
     pub started_at: Option<usize>,
     pub finished_at: Option<usize>,
+    /// wall clock (unix nanoseconds) just before the first poll / just after completion
+    pub started_wall: i128,
+    pub finished_wall: i128,
+}
+
+pub fn now_nanos() -> i128 {
+    std::time::SystemTime::now().duration_since(std::time::UNIX_EPOCH).map(|d| d.as_nanos() as i128).unwrap_or(0)
 }
 
 /// Run `ops` under `schedule`. Entry `v`: `v % (n + 1) == n` yields, otherwise polls operation `v % (n + 1)`.
 /// After the schedule every unfinished operation is driven to completion in index order.
 pub async fn run<'a, T>(ops: Vec<Op<'a, T>>, schedule: &[u8], drain_timeout: std::time::Duration) -> Vec<Slot<'a, T>> {
     let n = ops.len();
-    let mut slots: Vec<Slot<'a, T>> = ops.into_iter().map(|f| Slot { fut: Some(f), out: None, polls: 0, started_at: None, finished_at: None }).collect();
+    let mut slots: Vec<Slot<'a, T>> = ops.into_iter().map(|f| Slot { fut: Some(f), out: None, polls: 0, started_at: None, finished_at: None, started_wall: 0, finished_wall: 0 }).collect();
     let waker = Waker::noop();
     for (step, v) in schedule.iter().enumerate() {
         let k = (*v as usize) % (n + 1);
@@ -37,11 +44,13 @@ pub async fn run<'a, T>(ops: Vec<Op<'a, T>>, schedule: &[u8], drain_timeout: std
             s.polls += 1;
             if s.started_at.is_none() {
                 s.started_at = Some(step);
+                s.started_wall = now_nanos();
             }
             if let Poll::Ready(o) = f.as_mut().poll(&mut cx) {
                 s.out = Some(o);
                 s.fut = None;
                 s.finished_at = Some(step);
+                s.finished_wall = now_nanos();
             }
         }
     }
@@ -49,12 +58,14 @@ pub async fn run<'a, T>(ops: Vec<Op<'a, T>>, schedule: &[u8], drain_timeout: std
     for (i, s) in slots.iter_mut().enumerate() {
         if let Some(f) = s.fut.take() {
             if s.started_at.is_none() {
-                s.started_at = Some(schedule.len() + i);
+                s.started_at = Some(schedule.len() + 2 * i);
+                s.started_wall = now_nanos();
             }
             match tokio::time::timeout(drain_timeout, f).await {
                 Ok(o) => {
                     s.out = Some(o);
-                    s.finished_at = Some(schedule.len() + i);
+                    s.finished_at = Some(schedule.len() + 2 * i + 1);
+                    s.finished_wall = now_nanos();
                 }
                 Err(_) => {}
             }
